@@ -422,7 +422,7 @@ func InnerText(node *html.Node) string {
 	finder = func(n *html.Node) {
 		switch n.Type {
 		case html.TextNode:
-			buffer.WriteString(" " + n.Data + " ")
+			buffer.WriteString(n.Data)
 
 		case html.ElementNode:
 			if n.Data == "br" {
@@ -432,6 +432,13 @@ func InnerText(node *html.Node) string {
 
 			if !IsProbablyVisible(n) {
 				return
+			}
+
+			// Only elements that are not displayed inline separate the
+			// words before and after their boundaries.
+			if GetDisplayStyle(n) != "inline" {
+				buffer.WriteString(" ")
+				defer buffer.WriteString(" ")
 			}
 		}
 
